@@ -118,6 +118,8 @@ type FuncSpec struct {
 	Used      bool
 	Fresh     bool // result is a freshly allocated reference
 	Holds     []HoldDecl
+	NoSweep   []string // sweep kinds not generated for this function (reason goes to DESIGN.md / evidence)
+	Counted   []string // ghost counters bumped by the engine at every call of this function
 	Helper    bool // internal helper: type invariants are neither assumed nor checked at its boundary
 }
 
@@ -127,6 +129,7 @@ type TypeSpec struct {
 	Guarded  []GuardDecl
 	Final    []string
 	FinalTags []string
+	Owns     []string // channel fields whose closed-state only the private writers change
 	Private  []PrivateDecl
 	Atomic   []string
 	Confined []string
@@ -181,7 +184,16 @@ type LemmaSpec struct {
 	Line string
 }
 
+type SweepScope struct {
+	Tags   []string
+	Kinds  []string
+	Files  []string
+	Except []string
+	Line   string
+}
+
 type SpecFile struct {
+	Scopes []*SweepScope
 	Path   string
 	Pkg    string
 	Funcs  []*FuncSpec
@@ -599,7 +611,7 @@ var clauseKeywords = map[string]bool{
 	"pred": true, "fun": true, "lemma": true, "ghost": true, "func": true, "extern": true, "type": true,
 	"callspec": true, "requires": true, "ensures": true, "modifies": true, "pure": true, "function": true, "inline": true,
 	"trusted": true, "loop": true, "before": true, "sweep": true, "guarded": true, "final": true, "atomic": true,
-	"confined": true, "private": true, "holds": true, "helper": true, "hb-by-channel": true, "invariant": true, "ctor": true, "params": true, "fresh": true, "end": true,
+	"confined": true, "private": true, "owns": true, "holds": true, "helper": true, "counted": true, "sweepscope": true, "nosweep": true, "hb-by-channel": true, "invariant": true, "ctor": true, "params": true, "fresh": true, "end": true,
 }
 
 type rawClause struct {
@@ -636,6 +648,7 @@ func scanSpecFile(path string) (pkg string, clauses []rawClause, err error) {
 		}
 		if body == "" {
 			flush()
+			clauses = append(clauses, rawClause{text: "end-block", line: fmt.Sprintf("%s:%d", filepath.Base(path), i+1)})
 			continue
 		}
 		first := body
@@ -721,8 +734,31 @@ func parseSpecFile(path string, pkgPath string) (*SpecFile, error) {
 		}
 		fail := func(e error) (*SpecFile, error) { return nil, fmt.Errorf("%s: %v", rc.line, e) }
 		switch kw {
+		case "end-block":
+			curF, curCS, curT = nil, nil, nil
 		case "end":
 			curCS = nil
+		case "sweepscope":
+			curF, curCS, curT = nil, nil, nil
+			tags, _, body := parseTags(rest)
+			sc := &SweepScope{Tags: tags, Line: rc.line}
+			for _, part := range strings.Fields(body) {
+				kv := strings.SplitN(part, "=", 2)
+				if len(kv) != 2 {
+					return fail(fmt.Errorf("sweepscope: expected key=value, got %q", part))
+				}
+				switch kv[0] {
+				case "kinds":
+					sc.Kinds = splitNames(kv[1])
+				case "files":
+					sc.Files = splitNames(kv[1])
+				case "except":
+					sc.Except = splitNames(kv[1])
+				default:
+					return fail(fmt.Errorf("sweepscope: unknown key %q", kv[0]))
+				}
+			}
+			sf.Scopes = append(sf.Scopes, sc)
 		case "pred", "fun":
 			curF, curCS, curT = nil, nil, nil
 			toks, err := lex(rest)
@@ -864,6 +900,14 @@ func parseSpecFile(path string, pkgPath string) (*SpecFile, error) {
 			if f := target(); f != nil {
 				f.Fresh = true
 			}
+		case "nosweep":
+			if curF != nil {
+				curF.NoSweep = append(curF.NoSweep, splitNames(rest)...)
+			}
+		case "counted":
+			if f := target(); f != nil {
+				f.Counted = append(f.Counted, splitNames(rest)...)
+			}
 		case "helper":
 			if curF != nil {
 				curF.Helper = true
@@ -965,7 +1009,7 @@ func parseSpecFile(path string, pkgPath string) (*SpecFile, error) {
 				return nil, err
 			}
 			curF.Before = append(curF.Before, &CallAssert{callee, ord, c})
-		case "guarded", "final", "atomic", "confined", "hb-by-channel", "ctor", "invariant", "private":
+		case "guarded", "final", "atomic", "confined", "hb-by-channel", "ctor", "invariant", "private", "owns":
 			if curT == nil {
 				return fail(fmt.Errorf("%s outside type", kw))
 			}
@@ -981,6 +1025,8 @@ func parseSpecFile(path string, pkgPath string) (*SpecFile, error) {
 				tags, _, body := parseTags(rest)
 				curT.FinalTags = append(curT.FinalTags, tags...)
 				curT.Final = append(curT.Final, splitNames(body)...)
+			case "owns":
+				curT.Owns = append(curT.Owns, splitNames(rest)...)
 			case "private":
 				tags, _, body := parseTags(rest)
 				k := strings.LastIndex(body, " writers ")
